@@ -119,11 +119,27 @@ def family(maxk, full_upto):
     return out
 
 
+def short_family(ks):
+    """short two-letter keywords, every placement of optional keywords (no numeric suffixes): 3 and 4 keywords are
+    affordable with these, which the long-keyword family is not"""
+    words = ["Ab", "Cd", "Ef", "Gh"]
+    out = []
+    for k in ks:
+        for fl in itertools.product([0, 1], repeat=k):
+            if all(fl):
+                continue
+            s = ""
+            for idx, opt in enumerate(fl):
+                s += ("[:" + words[idx] + "]") if opt else ((":" if idx > 0 else "") + words[idx])
+            out.append(s)
+    return out
+
+
 def cstr(s):
     return '"' + s.replace("\\", "\\\\").replace('"', '\\"') + '"'
 
 
-def mk(pat, lmax, timeout, maxdig=9):
+def mk(pat, lmax, timeout, maxdig=9, min_unwind=32):
     pp = parse_pattern(pat)
     if pp is None:
         return None
@@ -169,7 +185,7 @@ def mk(pat, lmax, timeout, maxdig=9):
     defs = ["-DPATTERN=" + cstr(pat), "-DKW_INIT=" + kwinit, "-DALPH=" + cstr("".join(alpha)), "-DL=%d" % L, "-DMAXDIG=%d" % maxdig]
     if minlen > L:
         return None
-    return Case(name, H, ["utils.c"], defs=defs, unwind=max(L, len(pat), 32) + 3,
+    return Case(name, H, ["utils.c"], defs=defs, unwind=max(L, len(pat), min_unwind) + 3,
                 unwindset={"strnpbrk.0": 6}, timeout=timeout,
                 functions=["matchCommand", "matchPattern", "compareStr", "compareStrAndNum", "patternSeparatorShortPos",
                            "patternSeparatorPos", "cmdSeparatorPos", "strnpbrk", "strBaseToInt32"],
@@ -189,6 +205,11 @@ def cases(tier):
     for p in short_multi:
         seen.add(p)
         c = mk(p, 11, 900 if q else 3000, 1 if q else 3)
+        if c is not None:
+            cs.append(c)
+    for p in short_family((3, 4)):
+        seen.add(p)
+        c = mk(p, 12, 400 if q else 1500, 1, 0)
         if c is not None:
             cs.append(c)
     for p in pats + fam:
